@@ -9,7 +9,7 @@ import subprocess
 import sys
 
 ROOT = os.path.normpath(os.path.join(os.path.dirname(os.path.abspath(__file__)), '..'))
-BUILD = os.path.join(ROOT, 'ocaml', 'build')
+BUILD = os.environ.get('VERIF_OCAML_BUILD') or os.path.join(ROOT, 'ocaml', 'build')
 
 
 def build(pid):
